@@ -51,9 +51,13 @@ SubE(e) == {e} \cup (CASE e.k = "bin" -> SubE(e.l) \cup SubE(e.r)
                         [] OTHER -> {})
 AllSub(stmts) == UNION {SubE(stmts[i].e) : i \in Lets(stmts)}
 IsBundleName(stmts, n) == \E i \in Lets(stmts) : stmts[i].n = n /\ stmts[i].ty = "Bundle"
+\* ... or the OUTPUT value of the conditional is a scalar signal (any(b) > 0 : s): s is copied from the input, so it is wired onto the
+\* same network and takes part in the wildcard test - of this statement and of every other one that reads the same bundle
+WildCmp(stmts, c) == c.k = "bin" /\ c.op \in {"==", "!=", "<", "<=", ">", ">="}
+                     /\ (c.l.k \in {"any", "all"} \/ (c.l.k = "ref" /\ IsBundleName(stmts, c.l.n)))
 BundleCmpSignal(stmts) ==
-  \E e \in AllSub(stmts) : e.k = "bin" /\ e.op \in {"==", "!=", "<", "<=", ">", ">="} /\ e.r.k # "num"
-       /\ (e.l.k \in {"any", "all"} \/ (e.l.k = "ref" /\ IsBundleName(stmts, e.l.n)))
+  \/ \E e \in AllSub(stmts) : WildCmp(stmts, e) /\ e.r.k # "num"
+  \/ \E e \in AllSub(stmts) : e.k = "cond" /\ WildCmp(stmts, e.c) /\ e.c.l.k \in {"any", "all"} /\ e.v.k = "ref" /\ ~IsBundleName(stmts, e.v.n)
 
 (* KF-C02-nested-literal: a bundle literal that contains a NAMED bundle which is itself a literal ({ bb, s } with    *)
 (* bb = { a, b, ... }): the members of the inner bundle are not wired to the consumers of the outer one.             *)
